@@ -30,6 +30,7 @@ var drivers = map[string]runner{
 	"C15": ws.RunFor("C15"),
 	"C16": c16.Run,
 	"C20": c20.Run,
+	"C01": conv.RunC01,
 	"C03": pipe.RunC03,
 	"C05": pipe.RunC05,
 	"C08": pipe.RunC08,
